@@ -38,6 +38,9 @@ def cases(tier, seed):
             out.append(dict(gen='mi', style=style, tdtype=tdt, sub=core.subseed('C13', seed, k), must=True))
             k += 1
     # batches of one run handed over in different sample types (8-bit signed and unsigned, 16-bit, floating point)
+    # 8-bit counters: every (bin, class) cell fits, the totals over bins / classes do not
+    for j in range(4 if tier == 'quick' else 40):
+        out.append(dict(gen='mi', style=['integer', 'dyadic'][j % 2], tdtype=['uint8', 'int16', 'float32', 'float64'][j % 4], narrow=True, sub=core.subseed('C13nw', seed, j), must=True))
     for j in range(4 if tier == 'quick' else 60):
         out.append(dict(gen='mi', style='integer', tdtype='int16', mixed=True, sub=core.subseed('C13mx', seed, j), must=True))
     for j in range(6):
@@ -128,7 +131,10 @@ def _mi(t, case, rng):
     if K > 2 and rng.random() < 0.5:
         data[data == declared[1]] = declared[0]                # an empty class
     spec = dict(name='mia', partitions=declared)
-    mia_prec = [None, 'uint32', 'float64', 'uint16'][int(rng.integers(4))]
+    mia_prec = [None, 'uint32', 'float64', 'uint16', 'uint8'][int(rng.integers(5))] if not case.get('narrow') else 'uint8'
+    if case.get('narrow'):
+        n = int(rng.choice([300, 400, 600]))
+        data = rng.choice(pool, (n, W)).astype(ddt)
     if mia_prec:
         spec['mia_precision'] = mia_prec
     if style == 'bins_only':
@@ -210,6 +216,13 @@ def _mi(t, case, rng):
             for s in range(T):
                 if bins[i, s] >= 0:
                     exp_acc[s, bins[i, s], c, w] += 1
+    if mia_prec == 'uint8':
+        if int(exp_acc.max()) > 255:
+            # a cell that does not fit the requested counter type is the caller's choice, not judged
+            r = core.held(0, nontrivial=False, counters=dict(t.counters, narrow_counter_cell_overflow_not_judged=1))
+            r['metrics'] = {}
+            return r
+        t.count('narrow_counter_cases_with_totals_beyond_the_type', int(exp_acc.sum(axis=(1, 2)).max() > 255))
     t.count('histogram_cells_checked', int(acc.size))
     okacc = acc.shape == exp_acc.shape and np.array_equal(acc.astype('int64'), exp_acc)
     t.check(okacc, 'joint_histogram_differs', lambda: _hist_witness(info, acc, exp_acc, x, held_edges))
@@ -385,6 +398,31 @@ def _validation(t, case, rng):
         try:
             construct(arg, how)
             t.check(False, 'non_uniform_edges_accepted', dict(kind='not finite', how=['init', 'assignment', 'MIAReverse'][how], edges=[str(v) for v in bad], given_as=['list', 'float64 array', 'float32 array'][form]))
+        except (ValueError, TypeError):
+            t.check(True, '')
+    # one edge array object configured, refilled in place by its owner, and configured again: judged on its content each time
+    for _ in range(3):
+        buf = np.linspace(0.0, 8.0, 9)
+        how = int(rng.integers(2))
+        try:
+            o = construct(buf, how)
+        except (ValueError, TypeError) as e:
+            t.check(False, 'uniform_edges_refused', dict(kind='reused buffer, first content', error=str(e)))
+            continue
+        kind, edges = _nonuniform(rng)
+        buf2 = buf if len(edges) == len(buf) else None
+        if buf2 is None:
+            buf = np.linspace(0.0, float(len(edges) - 1), len(edges))
+            o = construct(buf, how)
+        buf[...] = edges
+        t.count('nonuniform_lists')
+        t.count('edge_buffers_refilled_in_place')
+        try:
+            if how == 1 and rng.random() < 0.5:
+                o.bin_edges = buf                      # the same object assigned to the same distinguisher again
+            else:
+                construct(buf, how)
+            t.check(False, 'non_uniform_edges_accepted', dict(kind=kind + ' (same array object as an earlier valid configuration)', edges=edges.tolist()[:8]))
         except (ValueError, TypeError):
             t.check(True, '')
     # decreasing / repeated edges
